@@ -220,9 +220,6 @@ def explore(ctx):
             for wh in ('identity', 'mixing', 'absent'):
                 for feat in ('absent', 'noind', 'sparse', 'sparse_rows'):
                     for sr in (100.0, 30000.0):
-                        if not ctx.thorough and (i + ctx.seed) % 2 and how != 'same':
-                            i += 1
-                            continue
                         i += 1
                         spec = {'n_spikes': 8, 'n_templates': 4, 'n_channels': 5, 'geometry': 'grid',
                                 'spike_templates': st, 'spike_clusters': curate(st, how),
